@@ -107,6 +107,27 @@ fn pow_dyn<const N: usize, const E: usize>(cx: &mut Cx, iters: usize, exhaustive
     }
 }
 
+/// exponent wider than the modulus, every route, bounds up to the full exponent width, exponent bits set above the
+/// modulus width (an exponent bound clamped to the base's width would ignore them)
+fn pow_boxed_wide_exponent(cx: &mut Cx, iters: usize) {
+    for it in 0..iters {
+        let n = 1 + it % 3;
+        let en = n + 1 + it % 2;
+        let m = modulus(&mut cx.rng, n, it);
+        let params = BoxedMontyParams::new_vartime(oddb(&m).unwrap());
+        let b = base_val(&mut cx.rng, &m, it);
+        let mut e = nat(&mut cx.rng, en); e[en - 1] |= 1 << 62; e[n] |= 5;
+        let x = BoxedMontyForm::new(bx(&b), params);
+        let ex = bx(&e);
+        let out = |r: BoxedMontyForm| O::ok().n("rt", &wb(&r.retrieve())).n("mf", &wb(r.as_montgomery()));
+        for k in [64 * en as u32, 64 * en as u32 - 1, 64 * n as u32 + 3, 64 * n as u32 + 1, 64 * n as u32] {
+            cx.call(pow_ev("BoxedMontyForm.pow_bounded_exp", 64 * n, &m, &b, &e, 64 * en, k), || out(x.pow_bounded_exp(&ex, k)));
+            cx.call(pow_ev("BoxedMontyForm.PowBoundedExp", 64 * n, &m, &b, &e, 64 * en, k), || out(PowBoundedExp::pow_bounded_exp(&x, &ex, k)));
+        }
+        cx.call(pow_ev("BoxedMontyForm.pow", 64 * n, &m, &b, &e, 64 * en, 64 * en as u32), || out(x.pow(&ex)));
+    }
+}
+
 fn pow_boxed(cx: &mut Cx, iters: usize) {
     for it in 0..iters {
         let n = if cx.rng.chance(1, 6) { cx.rng.pick(&[16usize, 17]) } else { cx.rng.range(1, 8) };
@@ -303,7 +324,7 @@ fn main() {
         pow_dyn::<16, 16>(&mut cx, 2 * s, false);
         pow_dyn::<16, 2>(&mut cx, 3 * s, false);
     }
-    if cx.want("powboxed") { pow_boxed(&mut cx, 70 * s); }
+    if cx.want("powboxed") { pow_boxed(&mut cx, 70 * s); pow_boxed_wide_exponent(&mut cx, 12 * s); }
     if cx.want("lincomblimit") { lincomb_window_limit(&mut cx); }
     if cx.want("powvolume") { pow_boxed_double_reduction(&mut cx, 40_000 * s.min(5)); }
     if cx.want("const") {
